@@ -154,3 +154,228 @@ example : hasRelToken b!"xnofollowx author" b!"nofollow" = false ∧
           addRelToken true b!"nofollow" b!"xnofollowx" = b!"xnofollowx nofollow" := by decide
 
 end BM.Props
+
+namespace BM.Props
+open BM BM.Html
+
+/-- every rel attribute of the list has the token -/
+def AllRel (t : Bytes) (l : List Attr) : Prop := ∀ a ∈ l, a.key = b!"rel" → hasRelToken a.val t = true
+/-- the list has a rel attribute -/
+def HasRel (l : List Attr) : Prop := ∃ a ∈ l, a.key = b!"rel"
+
+theorem hasRel_iff_any (l : List Attr) : HasRel l ↔ l.any (·.key == b!"rel") = true := by
+  unfold HasRel
+  simp [List.any_eq_true]
+
+theorem allRel_map_relFix_nf (nr : Bool) (l : List Attr) : AllRel b!"nofollow" (l.map (relFix true nr)) := by
+  intro a ha hk
+  obtain ⟨x, _, rfl⟩ := List.mem_map.mp ha
+  rw [relFix_key] at hk
+  exact (relFix_tokens true nr x hk).1 rfl
+
+theorem allRel_map_relFix_nr (nf : Bool) (l : List Attr) : AllRel b!"noreferrer" (l.map (relFix nf true)) := by
+  intro a ha hk
+  obtain ⟨x, _, rfl⟩ := List.mem_map.mp ha
+  rw [relFix_key] at hk
+  exact (relFix_tokens nf true x hk).2 rfl
+
+theorem hasRel_map_relFix (nf nr : Bool) (l : List Attr) (h : HasRel l) : HasRel (l.map (relFix nf nr)) := by
+  obtain ⟨a, ha, hk⟩ := h
+  exact ⟨relFix nf nr a, List.mem_map.mpr ⟨a, ha, rfl⟩, by rw [relFix_key]; exact hk⟩
+
+theorem not_hasRel_map_relFix (nf nr : Bool) (l : List Attr) (h : ¬HasRel l) : ¬HasRel (l.map (relFix nf nr)) := by
+  intro ⟨a, ha, hk⟩
+  obtain ⟨x, hx, rfl⟩ := List.mem_map.mp ha
+  rw [relFix_key] at hk
+  exact h ⟨x, hx, hk⟩
+
+theorem hasRel_map_relFix_iff (nf nr : Bool) (l : List Attr) : HasRel (l.map (relFix nf nr)) ↔ HasRel l := by
+  constructor
+  · rintro ⟨a, ha, hk⟩
+    obtain ⟨x, hx, rfl⟩ := List.mem_map.mp ha
+    rw [relFix_key] at hk
+    exact ⟨x, hx, hk⟩
+  · exact hasRel_map_relFix nf nr l
+
+/-- the target fix leaves every non-target attribute where and as it was -/
+theorem fixFirstTarget_rel (l : List Attr) :
+    ∀ a, a.key = b!"rel" → (a ∈ fixFirstTarget l ↔ a ∈ l) := by
+  induction l with
+  | nil => intro a _; simp [fixFirstTarget]
+  | cons x xs ih =>
+    intro a hk
+    unfold fixFirstTarget
+    by_cases hx : x.key = b!"target"
+    · simp only [hx, beq_self_eq_true, ↓reduceIte, List.mem_cons]
+      constructor
+      · rintro (h | h)
+        · split at h
+          · left; exact h
+          · exfalso; rw [h] at hk; simp at hk
+        · right; exact h
+      · rintro (h | h)
+        · exfalso; rw [h, hx] at hk; simp at hk
+        · right; exact h
+    · have : (x.key == b!"target") = false := by simpa using hx
+      simp only [this, Bool.false_eq_true, ↓reduceIte, List.mem_cons, ih a hk]
+
+theorem allRel_fixFirstTarget (t : Bytes) (l : List Attr) (h : AllRel t l) : AllRel t (fixFirstTarget l) :=
+  fun a ha hk => h a ((fixFirstTarget_rel l a hk).mp ha) hk
+
+theorem hasRel_fixFirstTarget (l : List Attr) : HasRel (fixFirstTarget l) ↔ HasRel l := by
+  constructor
+  · rintro ⟨a, ha, hk⟩; exact ⟨a, (fixFirstTarget_rel l a hk).mp ha, hk⟩
+  · rintro ⟨a, ha, hk⟩; exact ⟨a, (fixFirstTarget_rel l a hk).mpr ha, hk⟩
+
+theorem allRel_append (t : Bytes) (l m : List Attr) (h1 : AllRel t l) (h2 : AllRel t m) : AllRel t (l ++ m) := by
+  intro a ha hk
+  rcases List.mem_append.mp ha with h | h
+  · exact h1 a h hk
+  · exact h2 a h hk
+
+theorem allRel_target (t : Bytes) (v : Bytes) : AllRel t [⟨b!"target", v⟩] := by
+  intro a ha hk; simp at ha; subst ha; simp at hk
+
+/-- the noopener sub-pass keeps every required token on every rel attribute, provided a rel
+    attribute is already there (which is the case whenever a token was required) -/
+theorem allRel_addNoOpener (t : Bytes) (l : List Attr) (hr : HasRel l) (h : AllRel t l) : AllRel t (addNoOpener l) := by
+  have hany := (hasRel_iff_any l).mp hr
+  intro a ha hk
+  unfold addNoOpener at ha
+  simp only [hany, ↓reduceIte] at ha
+  obtain ⟨y, hy, rfl⟩ := List.mem_map.mp ha
+  by_cases hyk : y.key = b!"rel"
+  · simp only [hyk, beq_self_eq_true, ↓reduceIte]
+    exact addRelToken_keeps true _ _ _ wsfree_noopener (h y hy hyk)
+  · simp [hyk] at hk
+
+/-- the rel attribute that is appended when none was there carries the required tokens -/
+theorem appended_rel_tokens (nf nr : Bool) :
+    (nf = true → hasRelToken (newRelValue nf nr) b!"nofollow" = true) ∧
+    (nr = true → hasRelToken (newRelValue nf nr) b!"noreferrer" = true) := by
+  cases nf <;> cases nr <;> decide
+
+/-- **C11 (model of the hardening block)**: for an element with an href, after the block
+    * if nofollow is required (unconditionally, or because some href has a host and the
+      fully-qualified option is on), there is a rel attribute and every rel attribute has it;
+    * likewise noreferrer;
+    * if the element is `a` and a target `_blank` is present or is to be added, there is a rel
+      attribute and every rel attribute has noopener. -/
+theorem C11_hardenLinks (p : Policy) (el : Bytes) (clean : List Attr)
+    (hhref : (clean.filter (·.key == b!"href")).isEmpty = false) :
+    let ext := (clean.filter (·.key == b!"href")).any fun a => match Url.parse a.val with
+      | some u => !u.host.isEmpty
+      | none => false
+    let nf := p.requireNoFollow || (ext && p.requireNoFollowFullyQualifiedLinks)
+    let nr := p.requireNoReferrer || (ext && p.requireNoReferrerFullyQualifiedLinks)
+    let tb := ext && p.addTargetBlankToFullyQualifiedLinks
+    let blank := el == b!"a" &&
+      ((clean.any fun a => a.key == b!"target" && asciiEqualFold a.val b!"_blank") ||
+       (tb && clean.any (·.key == b!"target")))
+    let out := p.hardenLinks el clean
+    (nf = true → HasRel out ∧ AllRel b!"nofollow" out) ∧
+    (nr = true → HasRel out ∧ AllRel b!"noreferrer" out) ∧
+    ((blank || (el == b!"a" && tb)) = true → HasRel out ∧ AllRel b!"noopener" out) := by
+  intro ext nf nr tb blank out
+  -- name the stages of the block
+  have hout : out =
+      (let o0 := clean.map (relFix nf nr)
+       let o1 := if (el == b!"a" && tb) then fixFirstTarget o0 else o0
+       let o2 := if (nf || nr) && !(clean.any (·.key == b!"rel")) then
+           o1 ++ [⟨b!"rel", newRelValue nf nr⟩]
+         else o1
+       let o3 := if (el == b!"a" && tb && !blank) then o2 ++ [⟨b!"target", b!"_blank"⟩] else o2
+       if blank || (el == b!"a" && tb) then addNoOpener o3 else o3) := by
+    show p.hardenLinks el clean = _
+    unfold Policy.hardenLinks
+    simp only [hhref, Bool.false_eq_true, ↓reduceIte]
+    rfl
+  -- facts about the stage before the noopener pass
+  have stage (t : Bytes) (need : (nf || nr) = true)
+      (hmap : AllRel t (clean.map (relFix nf nr)))
+      (happ : hasRelToken (newRelValue nf nr) t = true) :
+      HasRel out ∧ AllRel t out := by
+    rw [hout]
+    simp only
+    -- o1
+    have h1 : AllRel t (if (el == b!"a" && tb) then fixFirstTarget (clean.map (relFix nf nr)) else clean.map (relFix nf nr)) := by
+      split
+      · exact allRel_fixFirstTarget t _ hmap
+      · exact hmap
+    generalize ho1 : (if (el == b!"a" && tb) then fixFirstTarget (clean.map (relFix nf nr)) else clean.map (relFix nf nr)) = o1 at h1
+    have hr1 : HasRel o1 ↔ HasRel clean := by
+      rw [← ho1]
+      split
+      · rw [hasRel_fixFirstTarget]; exact hasRel_map_relFix_iff nf nr clean
+      · exact hasRel_map_relFix_iff nf nr clean
+    -- o2 has a rel and all rel have t
+    have h2 : HasRel (if (nf || nr) && !(clean.any (·.key == b!"rel")) then o1 ++ [⟨b!"rel", newRelValue nf nr⟩] else o1) ∧
+        AllRel t (if (nf || nr) && !(clean.any (·.key == b!"rel")) then o1 ++ [⟨b!"rel", newRelValue nf nr⟩] else o1) := by
+      by_cases hc : clean.any (·.key == b!"rel") = true
+      · simp only [hc, Bool.not_true, Bool.and_false, Bool.false_eq_true, ↓reduceIte]
+        exact ⟨hr1.mpr ((hasRel_iff_any clean).mpr hc), h1⟩
+      · simp only [need, hc, Bool.not_false, Bool.and_self, ↓reduceIte]
+        refine ⟨⟨_, List.mem_append_right _ (List.mem_singleton.mpr rfl), rfl⟩, ?_⟩
+        apply allRel_append t _ _ h1
+        intro a ha _
+        simp only [List.mem_singleton] at ha; subst ha
+        exact happ
+    generalize (if (nf || nr) && !(clean.any (·.key == b!"rel")) then o1 ++ [(⟨b!"rel", newRelValue nf nr⟩ : Attr)] else o1) = o2 at h2
+    -- o3
+    have h3 : HasRel (if (el == b!"a" && tb && !blank) then o2 ++ [⟨b!"target", b!"_blank"⟩] else o2) ∧
+        AllRel t (if (el == b!"a" && tb && !blank) then o2 ++ [⟨b!"target", b!"_blank"⟩] else o2) := by
+      split
+      · obtain ⟨⟨a, ha, hk⟩, hall⟩ := h2
+        exact ⟨⟨a, List.mem_append_left _ ha, hk⟩, allRel_append t _ _ hall (allRel_target t _)⟩
+      · exact h2
+    generalize (if (el == b!"a" && tb && !blank) then o2 ++ [(⟨b!"target", b!"_blank"⟩ : Attr)] else o2) = o3 at h3
+    split
+    · exact ⟨(addNoOpener_spec o3).1, allRel_addNoOpener t o3 h3.1 h3.2⟩
+    · exact h3
+  refine ⟨?_, ?_, ?_⟩
+  · intro hnf
+    have tok := appended_rel_tokens nf nr
+    refine stage b!"nofollow" (by simp [hnf]) ?_ (tok.1 hnf)
+    rw [hnf]; exact allRel_map_relFix_nf nr clean
+  · intro hnr
+    have tok := appended_rel_tokens nf nr
+    refine stage b!"noreferrer" (by simp [hnr]) ?_ (tok.2 hnr)
+    rw [hnr]; exact allRel_map_relFix_nr nf clean
+  · intro hb
+    rw [hout]
+    simp only [hb, ↓reduceIte]
+    exact addNoOpener_spec _
+
+end BM.Props
+
+namespace BM.Props
+open BM BM.Html
+
+/-- after the target fix, the first target attribute (the one a browser uses) is `_blank`,
+    ASCII case-insensitively; if there is none the block appends one -/
+theorem fixFirstTarget_first (l : List Attr) :
+    match (fixFirstTarget l).find? (·.key == b!"target") with
+    | some a => asciiEqualFold a.val b!"_blank" = true
+    | none => l.any (·.key == b!"target") = false := by
+  induction l with
+  | nil => simp [fixFirstTarget]
+  | cons x xs ih =>
+    unfold fixFirstTarget
+    by_cases hx : x.key = b!"target"
+    · simp only [hx, beq_self_eq_true, ↓reduceIte]
+      by_cases hb : asciiEqualFold x.val b!"_blank" = true
+      · simp [hb, List.find?, hx]
+      · simp only [hb, Bool.false_eq_true, ↓reduceIte, List.find?, beq_self_eq_true]
+        rfl
+    · have hxf : (x.key == b!"target") = false := by simpa using hx
+      simp only [hxf, Bool.false_eq_true, ↓reduceIte, List.find?, List.any_cons, Bool.false_or]
+      exact ih
+
+example :
+    let p : Policy := { initialized := true, elsAndAttrs := [(b!"a", [(b!"href", [none]), (b!"rel", [none]), (b!"target", [none])])],
+                        requireParseableURLs := true, allowURLSchemes := [(b!"http", [])],
+                        requireNoFollowFullyQualifiedLinks := true, addTargetBlankToFullyQualifiedLinks := true }
+    p.sanitizeCore b!"<a rel=\"xnofollowx\" target=\"_BLANK\" href=\"http://h/\">t</a>" =
+      b!"<a rel=\"xnofollowx nofollow noopener\" target=\"_BLANK\" href=\"http://h/\">t</a>" := by decide
+
+end BM.Props
